@@ -20,7 +20,7 @@ fn perp_unit(a: &[f64; 3], d: &mut Draw) -> [f64; 3] {
 
 /// a pair of unit vectors with its class
 fn pair3(d: &mut Draw) -> ([f64; 3], [f64; 3], &'static str) {
-    let kind = d.int(0, 9);
+    let kind = d.int(0, 10);
     let a = match d.int(0, 7) {
         0 => d.pick(&[[1.0, 0.0, 0.0], [-1.0, 0.0, 0.0], [0.0, 1.0, 0.0], [0.0, -1.0, 0.0], [0.0, 0.0, 1.0], [0.0, 0.0, -1.0]]),
         _ => f_unit3(d),
@@ -40,6 +40,15 @@ fn pair3(d: &mut Draw) -> ([f64; 3], [f64; 3], &'static str) {
             (a, b, "near-antiparallel")
         }
         8 => (a, a, "equal"),
+        10 => {
+            // a multiple of 15 degrees between the two, exactly or up to 1e-12 .. 1e-6 rad: the angles at which the
+            // half-way construction's intermediate quantities (1 + cos, its square root, the doubled product) pass
+            // through round values
+            let th = (d.int(1, 11) as f64) * PI / 12.0 + if d.chance(1, 4) { 0.0 } else { d.f64_slog(1e-12, 1e-6) };
+            let p = perp_unit(&a, d);
+            let b = fnormalize3(&[a[0] * th.cos() + p[0] * th.sin(), a[1] * th.cos() + p[1] * th.sin(), a[2] * th.cos() + p[2] * th.sin()]);
+            (a, b, "generic")
+        }
         _ => {
             // now and then a is a hair off a coordinate axis: the perpendicular axis the constructor has to find is then
             // the cross product with a vector that is almost parallel to a (components down to the subnormal range)
